@@ -197,6 +197,7 @@ def _shard(shard, nshards, tier, seed):
         rig = Rig(machine, odd)
         mname = rig.mname
         pos = positions(mname, tier)
+        pos_variants = positions(mname, 'quick')     # the extra block/stack variants use the quick position set in both tiers
         # (i) the delay table, complete: one NOP at every frame position, in contended memory
         for t in range(shard, rig.frame, nshards):
             st = z80ref.State(PC=0x5000, SP=0x9000, T=t, I=0x3F)
@@ -250,7 +251,7 @@ def _shard(shard, nshards, tier, seed):
                                  (rname + '+bC0', dict(rset, B=0xC0), False))
                 for I, (rname, rset, match) in itertools.product(ivals if uses_ir else ivals[:1], variants):
                     for F in ((0x00, 0xFF) if ins.op in ('jr', 'jp', 'call', 'ret', 'djnz', 'block') else (0x00,)):
-                        for t in pos:
+                        for t in (pos if '+' not in rname else pos_variants):
                             st = z80ref.State(PC=pc, T=t, I=I, R=0x10, F=F, IFF=0, IM=1, **rset)
                             if match:
                                 rig.poke(rset['H'] * 256 + rset['L'], (rset['A'],))
@@ -297,7 +298,7 @@ def run(tier, seed):
              'ula.delay. states = distinct (machine, op class, placement) classes; non-trivial = distinct slots per machine'.format(
                  len(positions('48K', tier))),
         exhaustive=True,
-        bound='frame-position set: window edges + 3 partial lines (quick) / 4 whole lines + edges (thorough)',
+        bound='frame-position set: window edges + 3 partial lines (quick) / 4 whole lines + edges (thorough; the extra block/stack register variants use the quick set in both tiers)',
         assumptions=['bus-cycle breakdown per instruction class in mc/refs/z80ref.py follows the published contention table; mc/refs/ula.py the '
                      'published 6,5,4,3,2,1,0,0 pattern and frame layouts',
                      'A/PC/HALT after HALT and LD A,I/R are not compared when a contention delay moved the clock across the interrupt-window test',
